@@ -510,3 +510,12 @@ func FuzzVerify(f *testing.F) {
 		}
 	})
 }
+
+// coverage-guided fuzzing over the structured generators (thorough tier)
+func FuzzGenVerify(f *testing.F) {
+	h.FuzzSub(f, h.Sub[verifyCase]{Prop: "C18", Name: "verify", Gen: genVerify, Check: checkVerify})
+}
+
+func FuzzGenProve(f *testing.F) {
+	h.FuzzSub(f, h.Sub[proveCase]{Prop: "C18", Name: "prove", Gen: genProve, Check: checkProve})
+}
